@@ -158,7 +158,20 @@ func runC19(c *Ctx) {
 				if recvs[0].ok == nil {
 					ok, why = false, "receives without the comma-ok form: a closed channel would count as a value"
 				} else if p.Rets[0].Key() != recvs[0].val.Key() || p.Rets[1].Key() != recvs[0].ok.Key() {
-					ok, why = false, fmt.Sprintf("after a receive it returns (%s, %s) instead of the received value and its comma-ok", p.Rets[0], p.Rets[1])
+					// the same pair spelled out on a path that knows the comma-ok: (value, true) where it is true,
+					// (zero, false) where it is false (the value received from a closed channel is the zero value)
+					known, val := false, false
+					for _, cd := range p.Conds {
+						t, pol := stripNot(cd.T, cd.Pol)
+						if t.Key() == recvs[0].ok.Key() {
+							known, val = true, pol
+						}
+					}
+					same := known && ((val && p.Rets[0].Key() == recvs[0].val.Key() && p.Rets[1].IsConst("true")) ||
+						(!val && (isZeroish(p.Rets[0]) || p.Rets[0].Key() == recvs[0].val.Key()) && p.Rets[1].IsConst("false")))
+					if !same {
+						ok, why = false, fmt.Sprintf("after a receive it returns (%s, %s) instead of the received value and its comma-ok", p.Rets[0], p.Rets[1])
+					}
 				}
 			} else {
 				sawN = true
@@ -207,8 +220,32 @@ func runC19(c *Ctx) {
 		okNB, whyN := true, ""
 		// the accumulator phi and its bound
 		var acc *ssa.Phi
+		var cnt *ssa.Phi // RecvQueued only: a separate counter that shadows len(result)
 		if len(li.Phis) == 1 {
 			acc = li.Phis[0]
+		} else if len(li.Phis) == 2 && !s.full {
+			// result plus a counter that starts at 0 and goes up by one on every back edge, exactly as the result grows by
+			// one element there (checked below): counter == len(result) throughout, so `counter < max` is the same bound
+			for _, phi := range li.Phis {
+				if isIntegerType(phi.Type()) {
+					cnt = phi
+				} else {
+					acc = phi
+				}
+			}
+			if cnt != nil && acc != nil {
+				good := li.Init[cnt] != nil && li.Init[cnt].IsConst("0")
+				for _, p := range li.Back {
+					if nx := p.Next[cnt]; nx == nil || !ToPoly(nx).Equal(ToPoly(li.LV[cnt]).Add(polyConst(1), 1)) {
+						good = false
+					}
+				}
+				if !good {
+					acc, cnt = nil, nil
+				}
+			} else {
+				acc, cnt = nil, nil
+			}
 		}
 		if acc == nil {
 			R.Unproven("non-blocking", fi.Name, "loop", c.pos(fi), "expected exactly one loop-carried variable (the accumulated result)")
@@ -244,7 +281,7 @@ func runC19(c *Ctx) {
 			// the loop's own condition: the first branch that looks at the loop variable (a guard in front of the loop
 			// comes earlier on the path and does not)
 			for k := range li.Back[0].Conds {
-				if li.Back[0].Conds[k].T.ContainsKey(lv.Key()) {
+				if li.Back[0].Conds[k].T.ContainsKey(lv.Key()) || (cnt != nil && li.Back[0].Conds[k].T.ContainsKey(li.LV[cnt].Key())) {
 					boundCond = &li.Back[0].Conds[k]
 					break
 				}
@@ -259,6 +296,9 @@ func runC19(c *Ctx) {
 				} else {
 					lenR := ToPoly(&Term{Op: "builtin", Sym: "len", Args: []*Term{lv}})
 					boundOK = pl.Equal(ToPoly(paramOf(fi, 1)).Add(lenR, -1))
+					if cnt != nil {
+						boundOK = pl.Equal(ToPoly(paramOf(fi, 1)).Add(ToPoly(li.LV[cnt]), -1))
+					}
 				}
 			}
 		}
